@@ -289,6 +289,7 @@ func (h *harness) racingPairs(rng *rand.Rand, n int) {
 		}
 		xAfter, xServed := after.ByID[rc.Merge.R.ID]
 		xGrown := xServed && xAfter.Ver == rc.Merge.R.Version && xAfter.Start == rc.Merge.R.Start && xAfter.End == rc.Merge.R.End
+		xGrownOK := true // false: the older merge heartbeat is served although a newer region inside it was accepted
 		allNewAccepted := true
 		outcome := ""
 		if mergeErr == nil {
@@ -311,6 +312,7 @@ func (h *harness) racingPairs(rng *rand.Rand, n int) {
 			// region, i.e. it was older in version than a cached region it overlapped and not refused.
 			if _, ok := after.ByID[s.R.ID]; !ok {
 				if xGrown {
+					xGrownOK = false
 					key := "stale-heartbeat-accepted:overlap-older-version:racing-merge"
 					if mergeErr != nil {
 						key = "stale-heartbeat-changed-state:served:racing-merge"
@@ -355,6 +357,9 @@ func (h *harness) racingPairs(rng *rand.Rand, n int) {
 		}
 		if atomic.LoadInt32(&w.fired) == 1 && allNewAccepted && nRet < mRet {
 			windowHit++
+		}
+		if !xGrownOK {
+			r.Count("racing_pairs_merge_served_over_newer|"+mode, 1)
 		}
 		r.Distinct("race|" + rc.Variant + "|" + mode + "|" + outcome + fmt.Sprint(atomic.LoadInt32(&w.fired)))
 		if i == 0 {
